@@ -1,6 +1,7 @@
 import Heathcliff.Proofs.NonVac
 import Heathcliff.Proofs.GenRns2
 import Heathcliff.Proofs.GenRns3
+import Heathcliff.Proofs.GenRns5
 
 /-!
   Non-vacuity of the hypothesis bundles of Proofs/GenRns2.lean (translator tie, phase 4c) in the concrete world of Proofs/NonVac.lean:
@@ -105,3 +106,27 @@ theorem grw_sm_eq : GenR.sm_mrq (flatP #[#[1,2,3,4],#[5,6,7,8],#[9,10,11,12],#[1
   · intro x hx
     have : nv_tool.prodQModBsk.toList.all (fun y => decide (y < 2^64)) = true := by decide +kernel
     exact of_decide_eq_true (List.all_eq_true.mp this x (by simpa using hx))
+
+/-- phase 4f: `gr_fast_convert_array_eq` applies to the converter {97, 113} → {17}, the canonical polynomial `nv_c0` and a DIRTY destination buffer -/
+theorem grw_fca_eq : GenR.fast_convert_array (flatP nv_c0) (flatP #[#[9, 9, 9, 9]]) nv_base.size nv_base17.size nv_base.invPunct.toList nv_base.base.toList
+      nv_base17.base.toList (nv_conv.matrix.toList.map Array.toList) = (nv_conv.fastConvertArray nv_c0 4).map flatP := by
+  have h2 : nv_base.size = 2 := rfl
+  have h1 : nv_base17.size = 1 := rfl
+  refine gr_fast_convert_array_eq nv_base_wf nv_base17_wf nv_conv_new nv_c0 #[#[9, 9, 9, 9]] 4 (by rfl) ?_ ?_ (by rfl) ?_ (by decide +kernel) (by decide +kernel)
+  · intro i hi
+    rw [h2] at hi
+    interval_cases i <;> rfl
+  · intro i j hi hj
+    rw [h2] at hi
+    interval_cases i <;> interval_cases j <;> decide +kernel
+  · intro i hi
+    rw [h1] at hi
+    interval_cases i
+    rfl
+
+/-- … and the values: the generated function overwrites the dirty buffer with the four converted coefficients -/
+theorem grw_fca_val : GenR.fast_convert_array (flatP nv_c0) (flatP #[#[9, 9, 9, 9]]) nv_base.size nv_base17.size nv_base.invPunct.toList nv_base.base.toList
+      nv_base17.base.toList (nv_conv.matrix.toList.map Array.toList) = .ok [12, 16, 9, 16] := by
+  rw [grw_fca_eq]; decide +kernel
+
+end HC
